@@ -8,6 +8,19 @@
 //                                                                           executed by the caller)
 // Every function returns true when the claim(s) hold; otherwise `f` carries claim id, classifier tags and detail.
 // All verdicts are exact (__int128); long double is used only for the G6 distance, compared with a 0.001 margin.
+// Coordinates must stay within 2^61 (structural part) / 2^40 (geometric part; the classifiers double coordinates).
+//
+// Classifier tags (exact predicates over the witness, tags[0] is the narrowest class):
+//   S1  size_<n>                         S2  last_equals_first | interior_duplicate
+//   S3  outside_by_1 | outside_by_2 | outside_by_more | no_input_vertex
+//   G1  opposite_loops_cancel (the path winds +1 somewhere and -1 elsewhere on its own) | flat_no_interior | one_sided
+//   G2  pc_on | pc_off                   G5  straight_through
+//   G3  crossing_edge_overlaps_another_solution_edge (one of the two crossing edges is collinear with and overlaps
+//       another solution edge over a positive length: a zero-width join) | crossing_edges_overlap_no_other_edge
+//   G4  path_has_loops_of_both_orientations | path_winds_one_way
+//   G1/G3/G4 also carry "<axis_parallel_input|gp_input>+<class>"
+//   G6  within_tol_plus_1 | within_2tol | beyond_2tol
+//   G7  same_region_and_solution_has_coincident_vertices | region_differs | no_coincidence
 #ifndef VF_C03_SOLCHECK_H
 #define VF_C03_SOLCHECK_H
 
@@ -239,7 +252,10 @@ inline bool check_geometric(const Paths64& sol, const Paths64& inputs, bool pc, 
       bool positive = area2(P) > 0;
       bool expect_positive = ((depth & 1) == 0) != rev;
       if (positive != expect_positive) {
-        f.set(kG4, { std::string(rev ? "rev_on" : "rev_off"), "depth_" + std::to_string(depth), np == 1 ? "single_path" : "several_paths" },
+        // classifier: a path that winds both ways on its own (loops of both orientations joined into one path)
+        // has no well-defined orientation; anything else is a plain orientation/nesting error
+        std::string okind = winding_signs(P) == 3 ? "path_has_loops_of_both_orientations" : "path_winds_one_way";
+        f.set(kG4, { okind, std::string(rect_in ? "axis_parallel_input+" : "gp_input+") + okind, std::string(rev ? "rev_on" : "rev_off"), "depth_" + std::to_string(depth), np == 1 ? "single_path" : "several_paths" },
               "solution path #" + std::to_string(pi) + " (first vertex " + pstr(P[0]) + ", " + std::to_string(P.size()) + " vertices) is " +
               (positive ? "positively" : "negatively") + " oriented but lies inside " + std::to_string(depth) + " other solution path(s); ReverseSolution=" + (rev ? "1" : "0"));
         return false;
